@@ -326,8 +326,61 @@ def gradient_geometry_rule(model: Model, rr: RuleResult):
                     rr.bad(fi, c, f"{cls}.{f} is not rescaled when the gradient is moved to another frame", construct=f"{qn}: {f}={short(v) if v is not None else '<missing>'}")
     if seen < 4:
         raise AnalysisError(f"gradient geometry: only {seen} re-framing sites found")
+    # rounding keeps every geometric field too (a field reset to None is re-derived, p2 as the perpendicular of p0->p1)
+    for cls in GRADIENT_GEOMETRY:
+        fi = model.func("paint", f"{cls}.round")
+        for c in calls_in(fi):
+            if norm(c.func) != "dataclasses.replace" or not c.args or norm(c.args[0]) != "self":
+                continue
+            kws = {k.arg: k.value for k in c.keywords if k.arg}
+            pts, radii = GRADIENT_GEOMETRY[cls]
+            for f in pts + radii:
+                v = kws.get(f)
+                if v is None:
+                    rr.ok(f"{cls}.round leaves {f} as it is")
+                elif any(isinstance(n, ast.Attribute) and norm(n) == f"self.{f}" for n in ast.walk(v)) and any(isinstance(n, ast.Call) and callee_tail(n) == "round" for n in ast.walk(v)):
+                    rr.ok(f"{cls}.round: {f} <- round(self.{f})")
+                else:
+                    rr.bad(fi, c, f"{cls}.round sets {f}={short(v)}: the field is not the rounded old value (p2=None re-derives the normal as the perpendicular of p0->p1, which "
+                           f"is wrong for every gradient whose colour bands are not perpendicular to its vector)", construct=f"{cls}.round: {f}={short(v)}")
 
 
 @RULES.rule("C13", "R13f", "re-framing a gradient maps every geometric field (p0 p1 p2 / c0 c1 r0 r1)", floor=12)
 def r13f(model: Model, rr: RuleResult):
     gradient_geometry_rule(model, rr)
+
+
+@RULES.rule("C13", "R13g", "the fill attribute is left out only for SVG's own default (unindexed black), judged on the whole colour", floor=1)
+def r13g(model: Model, rr: RuleResult):
+    fi = model.func("svg", "_apply_solid_paint")
+    cfg = cfg_of(fi)
+    sets = [st for st in walk_body(fi) if isinstance(st, ast.Assign) and "attrib['fill']" in norm(st.targets[0])]
+    if len(sets) != 1:
+        raise AnalysisError("_apply_solid_paint: fill assignment not found")
+    facts = guard_facts(cfg, cfg.node_for(sets[0]))
+    if not facts:
+        rr.bad(fi, sets[0], "the fill attribute is set unconditionally; expected `colour != black`", construct="_apply_solid_paint: fill guard")
+        return
+    e = facts[0][0]
+    exprs = []
+    for fe, _ in facts:
+        exprs += expr_closure(cfg, cfg.node_for(sets[0]), fe)[1]
+    cmps = [x for ex in exprs for x in ast.walk(ex) if isinstance(x, ast.Compare) and len(x.ops) == 1 and isinstance(x.ops[0], (ast.Eq, ast.NotEq))]
+    whole = False
+    partial = None
+    for c in cmps:
+        sides = [c.left, c.comparators[0]]
+        t = [norm(x) for x in sides]
+        if any(x.endswith(".color.opaque()") or x.endswith(".color") for x in t) and any("Color.fromstring('black')" == x or x == "black" for x in t):
+            whole = True
+        for x in sides:
+            if isinstance(x, ast.Subscript) and "color" in norm(x.value):
+                partial = c
+            if isinstance(x, ast.Tuple) and all("color." in norm(y) for y in x.elts):
+                partial = c
+    if whole and partial is None:
+        rr.ok("fill is written unless the whole colour (palette index included, alpha aside) equals plain black")
+    else:
+        rr.bad(fi, partial or sets[0], f"whether fill is written is decided on part of the colour ({short(partial) if partial is not None else short(e)}): a palette-bound black "
+               f"(var(--colorN, black), i.e. a CPAL entry that other palettes recolour) gets no fill at all and stops following the palette",
+               construct="_apply_solid_paint: black test ignores palette_index")
